@@ -38,9 +38,10 @@ def plan(tier):
                  (3, [("dense", 1, 3)], MENU_LIST_Q),
                  (4, [("dense", 1, 2)], MENU_LIST_Q[:1])]
     else:
-        specs = [(2, [("dense", 1, 7), ("bounded", 4, 8, 10)], MENU_PAIR_T),
-                 (3, [("dense", 1, 4)], MENU_LIST_T),
-                 (4, [("dense", 1, 3)], MENU_LIST_T[:2])]
+        specs = [(2, [("dense", 1, 6)], MENU_PAIR_T), (2, [("dense", 7, 7), ("bounded", 3, 8, 10)],
+                                                       MENU_PAIR_Q + [(None, 12 * U)]),
+                 (3, [("dense", 1, 4)], MENU_LIST_T[:3]),
+                 (4, [("dense", 1, 2)], MENU_LIST_T[:2]), (4, [("dense", 3, 3)], MENU_LIST_Q[:1])]
     tasks, descs = [], []
     mixed_ks = (8,) if tier == "quick" else (8, 10)
     for be in ("py", "pyx"):
@@ -54,7 +55,7 @@ def plan(tier):
                           "(pooled threshold of the whole list)"})
     for N, regimes, menu in specs:
         sel = "all"
-        if N == 4 and tier == "quick":
+        if N == 4 and (tier == "quick" or regimes[0][1] == 3):
             sel = "quick4"
         tasks += pairs.regime_tasks(N, regimes, ["py", "pyx"],
                                     extra={"menu": menu, "sel": sel},
